@@ -1,7 +1,7 @@
 (* Refinement of the concrete ring (model/Ring.v, mirroring frameloop.go) to the
    abstract ghost specification (model/RingSpec.v).  Property C19; reused by the
    processor and detector proofs. *)
-From Coq Require Import List ZArith Bool Arith Lia.
+From Coq Require Import List ZArith Bool Arith Lia ZifyBool ZifyNat.
 From TR Require Import model.Ring model.RingSpec.
 Import ListNotations.
 Open Scope Z_scope.
@@ -22,74 +22,489 @@ Section RingProofs.
     k <= n /\
     (if k <? sz then oldest r = (cur r - k) mod sz else oldest r = NO_OLDEST_SET).
 
+
+  (* ---------- arithmetic helpers ---------- *)
+
+  Lemma mod_sub_small : forall sz c j, 0 <= c < sz -> 0 <= j < sz ->
+    (c - j) mod sz = if j <=? c then c - j else c - j + sz.
+  Proof.
+    intros sz c j Hc Hj. destruct (Z.leb_spec j c) as [Hle|Hlt].
+    - apply Z.mod_small. lia.
+    - rewrite <- (Z_mod_plus_full (c - j) 1 sz). rewrite Z.mul_1_l. apply Z.mod_small. lia.
+  Qed.
+
+  Lemma rem_wrap : forall sz k x, 0 <= k < sz -> (x = k \/ x = k + sz) -> Z.rem x sz = k.
+  Proof.
+    intros sz k x Hk [Hx|Hx]; subst x.
+    - apply Z.rem_small. lia.
+    - rewrite Z.rem_mod_nonneg by lia.
+      replace (k + sz) with (k + 1 * sz) by lia.
+      rewrite Z_mod_plus_full. apply Z.mod_small. lia.
+  Qed.
+
+  (* ---------- list helpers ---------- *)
+
+  Lemma upd_length : forall (l : list A) n v, length (upd l n v) = length l.
+  Proof. induction l as [|h t IH]; intros [|n] v; cbn; auto. Qed.
+
+  Lemma upd_nth_same : forall (l : list A) n v,
+    (n < length l)%nat -> nth n (upd l n v) d = v.
+  Proof.
+    induction l as [|h t IH]; intros [|n] v H; cbn in *; try lia; try reflexivity.
+    apply IH. lia.
+  Qed.
+
+  Lemma upd_nth_other : forall (l : list A) n m v,
+    n <> m -> nth m (upd l n v) d = nth m l d.
+  Proof.
+    induction l as [|h t IH]; intros [|n] [|m] v H; cbn;
+      try congruence; try reflexivity.
+    apply IH. congruence.
+  Qed.
+
+  Lemma nth_skipn' : forall a (l : list A) i, nth i (skipn a l) d = nth (a + i) l d.
+  Proof.
+    induction a as [|a IH]; intros [|h t] i; cbn; auto.
+    destruct i; auto.
+  Qed.
+
+  Lemma nth_firstn' : forall a (l : list A) i,
+    (i < a)%nat -> nth i (firstn a l) d = nth i l d.
+  Proof.
+    induction a as [|a IH]; intros l i H; [lia|].
+    destruct l as [|h t]; cbn; auto.
+    destruct i; auto. apply IH. lia.
+  Qed.
+
+  Lemma skipn_skipn' : forall y x (l : list A), skipn x (skipn y l) = skipn (y + x) l.
+  Proof.
+    induction y as [|y IH]; intros x l; cbn [Nat.add]; auto.
+    destruct l as [|h t].
+    - rewrite !skipn_nil. reflexivity.
+    - cbn [skipn]. apply IH.
+  Qed.
+
+  Lemma hd_skipn : forall a (l : list A), hd d (skipn a l) = nth a l d.
+  Proof.
+    induction a as [|a IH]; intros [|h t]; cbn; auto.
+  Qed.
+
+  Lemma nth_rot : forall a (l : list A) i,
+    (a <= length l)%nat -> (i < length l)%nat ->
+    nth i (skipn a l ++ firstn a l) d =
+    if (i <? length l - a)%nat then nth (a + i) l d else nth (i - (length l - a)) l d.
+  Proof.
+    intros a l i Ha Hi. destruct (Nat.ltb_spec i (length l - a)) as [Hlt|Hge].
+    - rewrite app_nth1 by (rewrite skipn_length; lia). apply nth_skipn'.
+    - rewrite app_nth2 by (rewrite skipn_length; lia).
+      rewrite skipn_length. apply nth_firstn'. lia.
+  Qed.
+
+  Lemma lastn_length : forall m (l : list A), length (lastn m l) = Nat.min m (length l).
+  Proof. intros m l. unfold lastn. rewrite skipn_length. lia. Qed.
+
+  Lemma lastn_ext : forall (fh L : list A) m,
+    length fh = m -> (m <= length L)%nat ->
+    (forall i, (i < m)%nat -> nth i fh d = nth (length L - m + i) L d) ->
+    fh = lastn m L.
+  Proof.
+    intros fh L m Hlen Hm Hnth. unfold lastn.
+    apply nth_ext with (d := d) (d' := d).
+    - rewrite skipn_length. lia.
+    - intros i Hi. rewrite nth_skipn'. apply Hnth. lia.
+  Qed.
+
+  Lemma lastn_lastn : forall a b (l : list A),
+    (a <= b)%nat -> (b <= length l)%nat ->
+    skipn (length (lastn b l) - a) (lastn b l) = lastn a l.
+  Proof.
+    intros a b l Hab Hb. rewrite lastn_length. unfold lastn.
+    rewrite skipn_skipn'. f_equal. lia.
+  Qed.
+
+  Lemma hd_lastn : forall m (l : list A), hd d (lastn m l) = nth (length l - m) l d.
+  Proof. intros. unfold lastn. apply hd_skipn. Qed.
+
+  (* ---------- consequences of the invariant ---------- *)
+
+  (* lia on the linear part of the context only: the facts about mod / rem that
+     are needed are extracted explicitly (RInv_cur_range, mod_sub_small, rem_wrap) *)
+  Ltac llia :=
+    repeat match goal with
+           | H : context [Z.modulo] |- _ => clear H
+           | H : context [Z.rem] |- _ => clear H
+           end;
+    lia.
+
+  Ltac inv H :=
+    unfold RInv in H; cbv zeta in H;
+    destruct H as (Hsz & Hpos & Hlen & Hcur & Hfull & Hslots & Hkn & Hold).
+
+  Lemma RInv_cur_range : forall sz r g, RInv sz r g ->
+    0 <= cur r < sz /\ cur r <= Z.of_nat (length (committed g)) /\
+    (Z.of_nat (length (committed g)) < sz -> cur r = Z.of_nat (length (committed g))).
+  Proof.
+    intros sz r g H. inv H. rewrite Hcur. split; [|split].
+    - apply Z.mod_pos_bound. llia.
+    - apply Z.mod_le; llia.
+    - intros Hn. apply Z.mod_small. llia.
+  Qed.
+
+  (* every live slot, including the current one (j = 0) *)
+  Lemma slot_spec : forall sz r g, RInv sz r g ->
+    forall j, 0 <= j -> j <= Z.of_nat (length (committed g)) -> j <= sz - 1 ->
+      zth d (slots r) ((cur r - j) mod sz) =
+      nth (Z.to_nat (Z.of_nat (length (committed g)) - j)) (committed g ++ [current d r]) d.
+  Proof.
+    intros sz r g H j Hj0 Hjn Hjs.
+    destruct (RInv_cur_range _ _ _ H) as (Hc & _ & _). inv H.
+    destruct (Z.eq_dec j 0) as [->|Hne].
+    - rewrite Z.sub_0_r. rewrite Z.mod_small by llia.
+      rewrite app_nth2 by llia.
+      replace (Z.to_nat (Z.of_nat (length (committed g)) - 0) - length (committed g))%nat
+        with 0%nat by llia.
+      reflexivity.
+    - rewrite Hslots by llia. rewrite app_nth1 by llia. reflexivity.
+  Qed.
+
+  (* same, with the index given linearly *)
+  Lemma slot_at : forall sz r g, RInv sz r g ->
+    forall i j, 0 <= j -> j <= Z.of_nat (length (committed g)) -> j <= sz - 1 ->
+      0 <= i < sz -> (i = cur r - j \/ i = cur r - j + sz) ->
+      zth d (slots r) i =
+      nth (Z.to_nat (Z.of_nat (length (committed g)) - j)) (committed g ++ [current d r]) d.
+  Proof.
+    intros sz r g H i j Hj0 Hjn Hjs Hi Hij.
+    destruct (RInv_cur_range _ _ _ H) as (Hc & _ & _).
+    rewrite <- (slot_spec _ _ _ H) by llia. f_equal.
+    rewrite mod_sub_small by llia.
+    destruct (Z.leb_spec j (cur r)); llia.
+  Qed.
+
+  Lemma fh_spec : forall sz r g, RInv sz r g ->
+    get_full_history r =
+    lastn (Nat.min (Z.to_nat sz) (S (length (committed g)))) (committed g ++ [current d r]).
+  Proof.
+    intros sz r g H.
+    destruct (RInv_cur_range _ _ _ H) as (Hc & Hcn & Hsmall).
+    pose proof (slot_at _ _ _ H) as Hat. inv H.
+    assert (HL : length (committed g ++ [current d r]) = S (length (committed g))).
+    { rewrite app_length. cbn [length]. llia. }
+    unfold get_full_history. rewrite Hsz.
+    destruct (Z.eqb_spec (cur r) (sz - 1)) as [Hlast|Hnl].
+    - (* current slot is the last one: the slots in order *)
+      apply lastn_ext.
+      + llia.
+      + llia.
+      + intros i Hi. rewrite HL.
+        change (nth i (slots r) d) with (nth i (slots r) d).
+        replace i with (Z.to_nat (Z.of_nat i)) at 1 by llia.
+        fold (zth d (slots r) (Z.of_nat i)).
+        rewrite (Hat (Z.of_nat i) (sz - 1 - Z.of_nat i)) by llia.
+        f_equal. llia.
+    - unfold next_index_after. rewrite Hsz.
+      rewrite Z.rem_small by llia.
+      destruct (full r) eqn:Hf; cbn [negb].
+      + (* full: rotation *)
+        assert (Hn : sz <= Z.of_nat (length (committed g))) by (apply Hfull; reflexivity).
+        apply lastn_ext.
+        * rewrite app_length, skipn_length, firstn_length. llia.
+        * llia.
+        * intros i Hi. rewrite HL.
+          rewrite nth_rot by llia.
+          destruct (Nat.ltb_spec i (length (slots r) - Z.to_nat (cur r + 1))) as [Hlt|Hge].
+          -- replace (Z.to_nat (cur r + 1) + i)%nat
+               with (Z.to_nat (cur r + 1 + Z.of_nat i)) by llia.
+             fold (zth d (slots r) (cur r + 1 + Z.of_nat i)).
+             rewrite (Hat (cur r + 1 + Z.of_nat i) (sz - 1 - Z.of_nat i)) by llia.
+             f_equal. llia.
+          -- replace (i - (length (slots r) - Z.to_nat (cur r + 1)))%nat
+               with (Z.to_nat (Z.of_nat i - sz + cur r + 1)) by llia.
+             fold (zth d (slots r) (Z.of_nat i - sz + cur r + 1)).
+             rewrite (Hat (Z.of_nat i - sz + cur r + 1) (sz - 1 - Z.of_nat i)) by llia.
+             f_equal. llia.
+      + (* not yet full: the prefix *)
+        assert (Hn : Z.of_nat (length (committed g)) < sz).
+        { destruct (Z.lt_ge_cases (Z.of_nat (length (committed g))) sz) as [Hl|Hg]; auto.
+          apply Hfull in Hg. congruence. }
+        specialize (Hsmall Hn).
+        apply lastn_ext.
+        * rewrite firstn_length. llia.
+        * llia.
+        * intros i Hi. rewrite HL.
+          rewrite nth_firstn' by llia.
+          replace i with (Z.to_nat (Z.of_nat i)) at 1 by llia.
+          fold (zth d (slots r) (Z.of_nat i)).
+          rewrite (Hat (Z.of_nat i) (cur r - Z.of_nat i)) by llia.
+          f_equal. llia.
+  Qed.
+
   Theorem RInv_init : forall sz blank, 1 <= sz -> RInv sz (new_ring sz blank) (ghost0 A).
-  Admitted.
+  Proof.
+    intros sz blank Hsz. unfold RInv, new_ring, ghost0. cbv zeta.
+    cbn [size cur full oldest slots committed since_mark length].
+    change (Z.of_nat 0) with 0.
+    split; [reflexivity|]. split; [assumption|].
+    split; [rewrite repeat_length; llia|].
+    split; [rewrite Z.mod_0_l by llia; reflexivity|].
+    split; [split; [discriminate|llia]|].
+    split; [intros j H1 H2 H3; llia|].
+    split; [llia|].
+    destruct (Z.ltb_spec 0 sz) as [_|Hge]; [|llia].
+    rewrite Z.mod_0_l by llia. reflexivity.
+  Qed.
 
   Theorem RInv_step : forall sz r g o,
       RInv sz r g -> RInv sz (rstep r o) (gstep (current d r) g o).
-  Admitted.
+  Proof.
+    intros sz r g o H.
+    destruct (RInv_cur_range _ _ _ H) as (Hc & Hcn & Hsmall). inv H.
+    destruct o as [v| | |]; cbn [rstep gstep].
+    - (* put *)
+      unfold RInv, put. cbv zeta. cbn [size cur full oldest slots].
+      split; [assumption|]. split; [assumption|].
+      split; [rewrite upd_length; assumption|].
+      split; [assumption|]. split; [assumption|].
+      split; [|split; assumption].
+      intros j Hj1 Hjn Hjs. rewrite <- Hslots by llia.
+      unfold zth. apply upd_nth_other.
+      rewrite mod_sub_small by llia.
+      destruct (Z.leb_spec j (cur r)); llia.
+    - (* move *)
+      set (n := Z.of_nat (length (committed g))) in *.
+      set (k := Z.of_nat (since_mark g)) in *.
+      set (c := next_index_after r (cur r)).
+      assert (Hcm : c = (cur r + 1) mod sz).
+      { unfold c, next_index_after. rewrite Hsz. apply Z.rem_mod_nonneg; llia. }
+      assert (Hcl : (cur r + 1 < sz /\ c = cur r + 1) \/ (cur r + 1 = sz /\ c = 0)).
+      { rewrite Hcm. destruct (Z.eq_dec (cur r + 1) sz) as [He|Hne].
+        - right. split; [assumption|]. rewrite He. apply Z.mod_same. llia.
+        - left. split; [llia|]. apply Z.mod_small. llia. }
+      assert (Hn' : Z.of_nat (length (committed g ++ [current d r])) = n + 1).
+      { rewrite app_length. cbn [length]. llia. }
+      unfold RInv, move. cbv zeta. cbn [size cur full oldest slots committed since_mark].
+      fold c. rewrite Hn'.
+      split; [assumption|]. split; [assumption|]. split; [assumption|].
+      split.
+      { rewrite Hcm, Hcur. apply Zplus_mod_idemp_l. }
+      split.
+      { destruct (Z.eqb_spec c 0) as [Hc0|Hc0].
+        - split; [intros _; llia|reflexivity].
+        - rewrite Hfull. split; intros Hle; [llia|].
+          destruct (Z.lt_ge_cases n sz) as [Hl|Hg]; [|assumption].
+          specialize (Hsmall Hl). llia. }
+      split.
+      { intros j Hj1 Hjn Hjs.
+        assert (Hidx : (c - j) mod sz = (cur r - (j - 1)) mod sz).
+        { rewrite Hcm, Zminus_mod_idemp_l. f_equal. llia. }
+        rewrite Hidx.
+        rewrite (slot_spec sz r g) by (try llia;
+          unfold RInv; cbv zeta; repeat (split; try assumption)).
+        f_equal. fold n. llia. }
+      split; [llia|].
+      assert (Hidx : (c - Z.of_nat (S (since_mark g))) mod sz = (cur r - k) mod sz).
+      { rewrite Hcm, Zminus_mod_idemp_l. f_equal. llia. }
+      rewrite Hidx.
+      destruct (Z.ltb_spec k sz) as [Hk|Hk].
+      + rewrite mod_sub_small in Hold |- * by llia.
+        destruct (Z.ltb_spec (Z.of_nat (S (since_mark g))) sz) as [Hk'|Hk'].
+        * destruct (Z.eqb_spec c (oldest r)) as [He|Hne]; [|assumption].
+          exfalso. destruct (Z.leb_spec k (cur r)); llia.
+        * destruct (Z.eqb_spec c (oldest r)) as [He|Hne]; [reflexivity|].
+          exfalso. destruct (Z.leb_spec k (cur r)); llia.
+      + destruct (Z.ltb_spec (Z.of_nat (S (since_mark g))) sz) as [Hk'|Hk']; [llia|].
+        destruct (Z.eqb_spec c (oldest r)) as [He|Hne]; [reflexivity|assumption].
+    - (* mark *)
+      unfold RInv, set_as_oldest. cbv zeta.
+      cbn [size cur full oldest slots committed since_mark].
+      split; [assumption|]. split; [assumption|]. split; [assumption|].
+      split; [assumption|]. split; [assumption|]. split; [assumption|].
+      split; [llia|].
+      change (Z.of_nat 0) with 0.
+      destruct (Z.ltb_spec 0 sz) as [_|Hge]; [|llia].
+      rewrite Z.sub_0_r. rewrite Z.mod_small by llia. reflexivity.
+    - (* reset *)
+      unfold RInv, reset. cbv zeta.
+      cbn [size cur full oldest slots committed since_mark length].
+      change (Z.of_nat 0) with 0.
+      split; [assumption|]. split; [assumption|]. split; [assumption|].
+      split; [rewrite Z.mod_0_l by llia; reflexivity|].
+      split; [split; [discriminate|llia]|].
+      split; [intros j H1 H2 H3; llia|].
+      split; [llia|].
+      destruct (Z.ltb_spec 0 sz) as [_|Hge]; [|llia].
+      rewrite Z.mod_0_l by llia. reflexivity.
+  Qed.
 
   Theorem RInv_history : forall sz r g,
       RInv sz r g ->
       get_history r = Some (spec_history (Z.to_nat sz) g (current d r)).
-  Admitted.
+  Proof.
+    intros sz r g H.
+    pose proof (fh_spec _ _ _ H) as Hfh.
+    destruct (RInv_cur_range _ _ _ H) as (Hc & Hcn & Hsmall). inv H.
+    assert (HL : length (committed g ++ [current d r]) = S (length (committed g))).
+    { rewrite app_length. cbn [length]. llia. }
+    unfold get_history, spec_history. rewrite Hfh.
+    destruct (Z.ltb_spec (Z.of_nat (since_mark g)) sz) as [Hk|Hk].
+    - rewrite mod_sub_small in Hold by llia.
+      assert (Hhl : Z.rem (cur r - oldest r + size r) (size r) = Z.of_nat (since_mark g)).
+      { rewrite Hsz. apply rem_wrap; [llia|].
+        destruct (Z.leb_spec (Z.of_nat (since_mark g)) (cur r)); llia. }
+      rewrite Hhl. clear Hhl Hcur Hslots Hfull Hfh Hsmall.
+      destruct (Z.eqb_spec (oldest r) NO_OLDEST_SET) as [He|Hne].
+      { exfalso. unfold NO_OLDEST_SET in He.
+        destruct (Z.leb_spec (Z.of_nat (since_mark g)) (cur r)); llia. }
+      clear Hold Hne.
+      set (L := committed g ++ [current d r]) in *.
+      set (m := Nat.min (Z.to_nat sz) (S (length (committed g)))) in *.
+      assert (Hm1 : (S (since_mark g) <= m)%nat) by (unfold m; llia).
+      assert (Hm2 : (m <= length L)%nat) by (unfold m; llia).
+      replace (Nat.min (Z.to_nat sz) (S (since_mark g))) with (S (since_mark g)) by llia.
+      rewrite lastn_length. replace (Nat.min m (length L)) with m by llia.
+      destruct ((Z.of_nat (since_mark g) + 1 >? Z.of_nat m) ||
+                (Z.of_nat (since_mark g) + 1 <? 0)) eqn:Hb; [exfalso; llia|].
+      f_equal.
+      rewrite <- (lastn_lastn (S (since_mark g)) m L Hm1 Hm2).
+      rewrite lastn_length. f_equal. llia.
+    - rewrite Hold. rewrite Z.eqb_refl. f_equal. f_equal. llia.
+  Qed.
 
   Theorem RInv_oldest : forall sz r g,
       RInv sz r g ->
       oldest_slot d r = spec_oldest d (Z.to_nat sz) g (current d r).
-  Admitted.
+  Proof.
+    intros sz r g H.
+    pose proof (slot_spec _ _ _ H) as Hspec.
+    destruct (RInv_cur_range _ _ _ H) as (Hc & Hcn & Hsmall). inv H.
+    assert (HL : length (committed g ++ [current d r]) = S (length (committed g))).
+    { rewrite app_length. cbn [length]. llia. }
+    unfold oldest_slot, spec_oldest, spec_history. rewrite hd_lastn, HL.
+    destruct (Z.ltb_spec (Z.of_nat (since_mark g)) sz) as [Hk|Hk].
+    - destruct (Z.eqb_spec (oldest r) NO_OLDEST_SET) as [He|Hne]; cbn [negb].
+      { exfalso. unfold NO_OLDEST_SET in He.
+        rewrite mod_sub_small in Hold by llia.
+        destruct (Z.leb_spec (Z.of_nat (since_mark g)) (cur r)); llia. }
+      rewrite Hold, Hspec by llia. f_equal. llia.
+    - rewrite Hold, Z.eqb_refl. cbn [negb].
+      unfold next_index_after. rewrite Hsz.
+      rewrite Z.rem_mod_nonneg by llia.
+      replace ((cur r + 1) mod sz) with ((cur r - (sz - 1)) mod sz).
+      2:{ rewrite <- (Z_mod_plus_full (cur r - (sz - 1)) 1 sz). f_equal. llia. }
+      rewrite Hspec by llia. f_equal. llia.
+  Qed.
 
   Theorem RInv_recent : forall sz r g x,
       RInv sz r g ->
       spec_recent (Z.to_nat sz) g (current d r) = Some x ->
       recent d r = x.
-  Admitted.
+  Proof.
+    intros sz r g x H Hx.
+    pose proof (slot_spec _ _ _ H) as Hspec.
+    destruct (RInv_cur_range _ _ _ H) as (Hc & Hcn & Hsmall). inv H.
+    unfold spec_recent in Hx. unfold recent, recent_index. rewrite Hsz.
+    destruct (Nat.eqb_spec (Z.to_nat sz) 1) as [H1|H1].
+    - injection Hx as <-. assert (sz = 1) as -> by llia.
+      assert (cur r = 0) as Hc0 by llia. unfold current. f_equal.
+      rewrite Hc0. reflexivity.
+    - assert (Hrev : committed g = rev (rev (committed g))) by (symmetry; apply rev_involutive).
+      destruct (rev (committed g)) as [|y t] eqn:Hr; [discriminate|].
+      injection Hx as ->. cbn [rev] in Hrev.
+      assert (Hn : length (committed g) = S (length t)).
+      { rewrite Hrev, app_length, rev_length. cbn [length]. llia. }
+      rewrite Z.rem_mod_nonneg by llia.
+      replace ((cur r - 1 + sz) mod sz) with ((cur r - 1) mod sz).
+      2:{ rewrite <- (Z_mod_plus_full (cur r - 1) 1 sz). f_equal. llia. }
+      rewrite Hslots by llia.
+      rewrite Hrev at 2.
+      rewrite app_nth2 by (rewrite rev_length; llia).
+      rewrite rev_length.
+      replace (Z.to_nat (Z.of_nat (length (committed g)) - 1) - length t)%nat with 0%nat by llia.
+      reflexivity.
+  Qed.
 
   Theorem RInv_mark_expiry : forall sz r g,
       RInv sz r g ->
       (oldest r = NO_OLDEST_SET <-> (Z.to_nat sz <= since_mark g)%nat).
-  Admitted.
+  Proof.
+    intros sz r g H.
+    destruct (RInv_cur_range _ _ _ H) as (Hc & Hcn & Hsmall). inv H.
+    destruct (Z.ltb_spec (Z.of_nat (since_mark g)) sz) as [Hk|Hk].
+    - rewrite mod_sub_small in Hold by llia. unfold NO_OLDEST_SET.
+      destruct (Z.leb_spec (Z.of_nat (since_mark g)) (cur r)); llia.
+    - split; [llia|intros _; assumption].
+  Qed.
 
   Theorem RInv_put_current : forall sz r g v,
       RInv sz r g -> current d (put r v) = v.
-  Admitted.
+  Proof.
+    intros sz r g v H.
+    destruct (RInv_cur_range _ _ _ H) as (Hc & Hcn & Hsmall). inv H.
+    unfold current, put, zth. cbn [slots cur].
+    apply upd_nth_same. llia.
+  Qed.
 
   (* ---- statements over every reachable state (all op sequences, all capacities >= 1) ---- *)
 
   Definition reach (sz : Z) (blank : A) (ops : list (rop A)) : ring A * ghost A :=
     grrun d (new_ring sz blank, ghost0 A) ops.
 
+  Lemma RInv_run : forall sz ops r g,
+      RInv sz r g ->
+      RInv sz (fst (grrun d (r, g) ops)) (snd (grrun d (r, g) ops)).
+  Proof.
+    intros sz ops. induction ops as [|o ops IH]; intros r g H.
+    - exact H.
+    - unfold grrun in *. cbn [fold_left].
+      change (grstep d (r, g) o) with (rstep r o, gstep (current d r) g o).
+      apply IH. apply RInv_step. exact H.
+  Qed.
+
   Theorem ring_inv_reachable : forall sz blank ops,
       1 <= sz -> RInv sz (fst (reach sz blank ops)) (snd (reach sz blank ops)).
-  Admitted.
+  Proof.
+    intros sz blank ops Hsz. unfold reach. apply RInv_run. apply RInv_init. exact Hsz.
+  Qed.
 
   Theorem get_history_refines : forall sz blank ops,
       1 <= sz ->
       let r := fst (reach sz blank ops) in
       let g := snd (reach sz blank ops) in
       get_history r = Some (spec_history (Z.to_nat sz) g (current d r)).
-  Admitted.
+  Proof.
+    intros sz blank ops Hsz r g. apply RInv_history.
+    apply ring_inv_reachable. exact Hsz.
+  Qed.
 
   Theorem oldest_refines : forall sz blank ops,
       1 <= sz ->
       let r := fst (reach sz blank ops) in
       let g := snd (reach sz blank ops) in
       oldest_slot d r = spec_oldest d (Z.to_nat sz) g (current d r).
-  Admitted.
+  Proof.
+    intros sz blank ops Hsz r g. apply RInv_oldest.
+    apply ring_inv_reachable. exact Hsz.
+  Qed.
 
   Theorem recent_refines : forall sz blank ops x,
       1 <= sz ->
       let r := fst (reach sz blank ops) in
       let g := snd (reach sz blank ops) in
       spec_recent (Z.to_nat sz) g (current d r) = Some x -> recent d r = x.
-  Admitted.
+  Proof.
+    intros sz blank ops x Hsz r g. apply RInv_recent.
+    apply ring_inv_reachable. exact Hsz.
+  Qed.
 
   Theorem mark_expiry : forall sz blank ops,
       1 <= sz ->
       let r := fst (reach sz blank ops) in
       let g := snd (reach sz blank ops) in
       (oldest r = NO_OLDEST_SET <-> (Z.to_nat sz <= since_mark g)%nat).
-  Admitted.
+  Proof.
+    intros sz blank ops Hsz r g. apply RInv_mark_expiry.
+    apply ring_inv_reachable. exact Hsz.
+  Qed.
 
   (* ---- consequences phrased as in the property text ---- *)
 
@@ -105,12 +520,35 @@ Section RingProofs.
         committed g ++ [current d r] = pre ++ h /\
         (1 <= length h <= Z.to_nat sz)%nat /\
         length h = Nat.min (Z.to_nat sz) (S (since_mark g)).
-  Admitted.
+  Proof.
+    intros sz blank ops Hsz1 r g.
+    pose proof (ring_inv_reachable sz blank ops Hsz1) as H. fold r g in H.
+    pose proof (RInv_history _ _ _ H) as Hh. inv H.
+    assert (HL : length (committed g ++ [current d r]) = S (length (committed g))).
+    { rewrite app_length. cbn [length]. llia. }
+    exists (spec_history (Z.to_nat sz) g (current d r)).
+    exists (firstn (length (committed g ++ [current d r]) -
+                    Nat.min (Z.to_nat sz) (S (since_mark g)))
+                   (committed g ++ [current d r])).
+    split; [exact Hh|].
+    split; [unfold spec_history, lastn; symmetry; apply firstn_skipn|].
+    unfold spec_history. rewrite lastn_length, HL. llia.
+  Qed.
 
   Theorem since_mark_le_committed : forall sz blank ops,
       1 <= sz ->
       let g := snd (reach sz blank ops) in
       (since_mark g <= length (committed g))%nat.
-  Admitted.
+  Proof.
+    intros sz blank ops Hsz1 g.
+    pose proof (ring_inv_reachable sz blank ops Hsz1) as H. fold g in H.
+    inv H. llia.
+  Qed.
 
 End RingProofs.
+
+Print Assumptions get_history_refines.
+Print Assumptions oldest_refines.
+Print Assumptions recent_refines.
+Print Assumptions mark_expiry.
+Print Assumptions history_is_suffix.
